@@ -359,6 +359,8 @@ func (rp *report) finish(wall time.Duration) int {
 	perHarness := []map[string]interface{}{}
 	nViol := 0
 	cexN := 0
+	crossChecked := 0
+	crossSolver := ""
 	writeCex := func(c *interp.Cex) string {
 		cexN++
 		p := filepath.Join(rp.outDir, fmt.Sprintf("cex-%d.json", cexN))
@@ -406,6 +408,11 @@ func (rp *report) finish(wall time.Duration) int {
 		perHarness = append(perHarness, ph)
 		for _, ic := range r.Inconclusive {
 			inconclusive = append(inconclusive, fmt.Sprintf("%s: %s: %s", shortName(r.Harness), ic.Kind, firstLines(ic.Msg, 6)))
+		}
+		crossChecked += r.CrossChecked
+		crossSolver = r.CrossSolver
+		for _, d := range r.CrossDisagree {
+			inconclusive = append(inconclusive, fmt.Sprintf("%s: SOLVER-DISAGREEMENT: %s", shortName(r.Harness), firstLines(d, 30)))
 		}
 		// reach
 		var rids []string
@@ -532,6 +539,7 @@ func (rp *report) finish(wall time.Duration) int {
 			"harnesses":               perHarness,
 			"solver": map[string]interface{}{
 				"name": o.Solver, "queries": queries, "total_s": round(solverTime.Seconds()), "max_query_s": round(solverMax.Seconds()),
+				"second_solver": crossSolver, "discharged_queries_rechecked_by_second_solver": crossChecked,
 			},
 			"native_replays":       rp.replayed,
 			"native_replay_s":      round(rp.nativeTime.Seconds()),
